@@ -6,7 +6,7 @@ from pathlib import Path
 from . import exceptions  # noqa: F401
 from .exceptions import DockerException
 
-PLAN = {"chunks": [], "fail_after": None, "fail_at_call": False, "write_result": True, "nonce": "n"}
+PLAN = {"chunks": [], "fail_after": None, "fail_at_call": False, "write_result": True, "nonce": "n", "write_before": None}
 CALLS = []
 
 
@@ -28,11 +28,18 @@ class _Docker:
             raise DockerException(["docker", "run", image], 125)
         plan = dict(PLAN)
 
+        def early_result(i):
+            # a container that has already put its output into /results when it goes on to fail
+            if plan.get("write_before") is not None and i == plan["write_before"] and results:
+                (Path(results[0][0]) / "ANALYSIS.root").write_text(f"RESULT {plan['nonce']}\n")
+
         def gen():
             for i, (s, b) in enumerate(plan["chunks"]):
+                early_result(i)
                 if plan["fail_after"] is not None and i == plan["fail_after"]:
                     raise DockerException(["docker", "run", image], 1)
                 yield (s, b)
+            early_result(len(plan["chunks"]))
             if plan["fail_after"] is not None and plan["fail_after"] >= len(plan["chunks"]):
                 raise DockerException(["docker", "run", image], 1)
             if plan["write_result"] and results:
